@@ -654,6 +654,12 @@ func init() {
 			for k := 0; k < 3; k++ {
 				emit("latefail\t" + fmt.Sprint(g.Intn(1000)))
 			}
+			// a long fault-free life before the fault: tens of thousands of distinct rules materialised after the ones the
+			// oracle asks about (nothing materialised is ever dropped, however many follow)
+			emit("bigfault\t" + fmt.Sprint(66000+g.Intn(6000)) + "\t" + fmt.Sprint(g.Intn(1000)))
+			if tier == "thorough" {
+				emit("bigfault\t" + fmt.Sprint(132000+g.Intn(6000)) + "\t" + fmt.Sprint(g.Intn(1000)))
+			}
 			for i := 0; i < bases; i++ {
 				ls, lines := genHistStorage(g, 25)
 				var ops []Req
@@ -752,6 +758,45 @@ func init() {
 					h.cleanup()
 				}
 				st.Inc("late_failure_scenarios")
+				return "ok" + flags, "echo\tok", true
+			}
+			if f[0] == "bigfault" {
+				var n, k int
+				fmt.Sscan(f[1], &n)
+				fmt.Sscan(f[2], &k)
+				var sb strings.Builder
+				for i := 0; i < n; i++ {
+					if i%3 == 2 {
+						fmt.Fprintf(&sb, "0.0.0.0 big%d-%d.example\n", k, i)
+					} else {
+						fmt.Fprintf(&sb, "||big%d-%d.example^\n", k, i)
+					}
+				}
+				h := newHistEngines([]listSpec{{1, false, sb.String()}}, true)
+				early := []Req{}
+				for i := 0; i < 40; i++ {
+					early = append(early, Req{Kind: "dns", Hostname: fmt.Sprintf("big%d-%d.example", k, i*7)})
+					if i%4 == 0 {
+						early = append(early, Req{Kind: "url", URL: fmt.Sprintf("http://big%d-%d.example/x", k, i*7), Type: 4})
+					}
+				}
+				before := make([]string, len(early))
+				for i, rq := range early {
+					before[i], _, _ = h.runOp(rq)
+				}
+				for i := 0; i < n; i++ {
+					h.runOp(Req{Kind: "dns", Hostname: fmt.Sprintf("big%d-%d.example", k, i)})
+				}
+				_ = h.storage.Close()
+				flags := ""
+				for i, rq := range early {
+					after, _, _ := h.runOp(rq)
+					if after != before[i] && flags == "" {
+						flags = fmt.Sprintf("!MATERIALISED-RULE-LOST-AFTER-%d-LATER-RETRIEVALS:%s before=%s after=%s", n, rq.Hostname+rq.URL, before[i], after)
+					}
+				}
+				h.cleanup()
+				st.Inc("long_life_before_the_fault")
 				return "ok" + flags, "echo\tok", true
 			}
 			ls := decodeStorage(f[0])
